@@ -38,7 +38,7 @@ var effectFreePrefixes = []string{
 	"(*bytes.Buffer).", "(error).Error", "(*errors.errorString).Error", "sort.Search",
 	"(reflect.Type).", "(reflect.Value).Kind", "(reflect.Value).Type", "(reflect.Value).Len", "(reflect.Value).IsNil", "(reflect.Value).Uint", "(reflect.Value).Int", "(reflect.Value).Bool", "(reflect.Value).Bytes", "(reflect.Value).String", "reflect.TypeOf", "reflect.ValueOf",
 	"(reflect.Kind).String", "(*reflect.rtype).",
-	"golang.org/x/crypto/sha3.", "(hash.Hash).", "crypto/sha256.Sum256",
+	"golang.org/x/crypto/sha3.", "(hash.Hash).", "crypto/sha256.Sum256", "com.tuntun.rangers/node/src/eth_crypto.Keccak256",
 }
 
 // decodeInto: functions whose only effect is to overwrite the object a pointer argument refers to.
@@ -148,10 +148,15 @@ func (vc *VC) call(fr *Frame, st *State, ins ssa.Instruction, cc *ssa.CallCommon
 	if callee == nil && !cc.IsInvoke() {
 		if ld, ok := cc.Value.(*ssa.UnOp); ok && ld.Op == token.MUL {
 			if fa, ok := ld.X.(*ssa.FieldAddr); ok {
-				st := derefType(fa.X.Type())
-				if n, ok := st.(*types.Named); ok && n.Obj().Pkg() != nil {
-					fname := st.Underlying().(*types.Struct).Field(fa.Field).Name()
+				sty := derefType(fa.X.Type())
+				if n, ok := sty.(*types.Named); ok && n.Obj().Pkg() != nil {
+					fname := sty.Underlying().(*types.Struct).Field(fa.Field).Name()
 					fieldCon = vc.P.Contracts[n.Obj().Pkg().Path()+"::"+n.Obj().Name()+"."+fname]
+					if fieldCon != nil {
+						// "this" names the struct holding the function value
+						tv := vc.operand(fr, st, fa.X)
+						vc.pendingThis, vc.pendingThisType = &tv, fa.X.Type()
+					}
 				}
 			}
 		}
@@ -374,6 +379,10 @@ func (vc *VC) applyContract(fr *Frame, st *State, con *Contract, callee *ssa.Fun
 			names[n] = vc.sval(args[i], argTypes[i])
 		}
 	}
+	if vc.pendingThis != nil {
+		names["this"] = vc.sval(*vc.pendingThis, vc.pendingThisType)
+		vc.pendingThis = nil
+	}
 	var pkg *types.Package
 	var spkg *ssa.Package
 	if sp := vc.P.Pkgs[con.Pkg]; sp != nil {
@@ -531,6 +540,19 @@ func (vc *VC) modTarget(env *SpecEnv, m *SExpr) modTgt {
 	case "sel":
 		base := env.eval(m.Args[0])
 		if base.P == nil || base.GoT == nil || !isPointer(base.GoT) {
+			// x.f.g: a field of a struct-typed field
+			if m.Args[0].Op == "sel" {
+				bt := vc.modTarget(env, m.Args[0])
+				if bt.kind == "place" && bt.place != nil && bt.place.Typ != nil {
+					if su, ok := bt.place.Typ.Underlying().(*types.Struct); ok {
+						idx, ft := fieldIndex(su, m.Name)
+						if idx < 0 {
+							env.fail("no field %s", m.Name)
+						}
+						return modTgt{kind: "place", place: bt.place.extend(PathElem{Field: idx, Cont: bt.place.Typ}, ft)}
+					}
+				}
+			}
 			env.fail("modifies x.f needs a pointer x")
 		}
 		stT := derefType(base.GoT)
